@@ -55,6 +55,7 @@ type PathResult struct {
 	Funcs       map[string]int
 	Models      map[string]bool
 	Notes       []string
+	TV          []string
 }
 
 type Frame struct {
